@@ -553,6 +553,11 @@ int cli::run(size_t argc, const char** argv)
         {
             std::filesystem::path path(*rit);
             path = path.lexically_normal();
+            if (!std::filesystem::exists(path))
+            { // pbofile would *create* an empty archive at that path; loading input must never write
+                std::cout << "Failed to parse PBO '" << path << "'.";
+                continue;
+            }
             rvutils::pbo::pbofile pbo(path);
             if (!pbo.good())
             {
